@@ -2,6 +2,9 @@
      derive_driver <cases.txt> <out.txt> <types.txt>
    cases:  de <key> <hex>            -> ok <hex of tser (tde bytes)> | err <Kind>
            pair <old> <new> <hex>    -> ok <hex1> <hex2> | err <Kind> | ok <hex1> err2 <Kind>
+   With a 4th argument (spec file) the statements of C16_decides/accepts (de cases) and of
+   C16_old_new (pair cases; KEEPS labels read from expect.txt next to the cases file) are evaluated
+   on every case and mismatches are written there.
    types.txt is the wire-type table written by vlib/c16gen.py (one definition per line, prefix
    notation).  Named references are inlined; a recursive schema is unfolded LEVELS times with
    sharing (a value nested deeper than that exceeds MAX_VALUE_DEPTH anyway). *)
@@ -185,7 +188,93 @@ let spec_check key (b : n list) : string =
                   | Err _ -> "reencode-failed")
         | Err _ -> if c then "conforming-but-rejected" else if ty <> None then "typed-some-but-rejected" else ""))
 
+(* ---------- the statement of C16_old_new evaluated on the pair cases ----------
+   Hypotheses: [evolves t_old t_new] must hold on every generated pair; a case the harness labels
+   KEEPS must satisfy [all_fallback t_old] (hence [evolves_keeping], C16_old_new_all_fallback).
+   Conclusion (when the input is the canonical serialization of a value conforming to t_new and the
+   pair is keeping): the old type accepts, the new type reads from the re-encoded bytes exactly what
+   it reads from the input, and its re-encoding decodes to [norm t_new v].
+   The relation walks the whole type, so for recursive schemas it is evaluated on an unfolding small
+   enough to traverse (counted as truncated; sound for the two checks above, the converse check
+   "all_fallback => labelled KEEPS" is only made on full unfoldings). *)
+let cap = 1_000_000_000
+let sat a b = if a + b > cap then cap else a + b
+let size_memo : (string * int, int) Hashtbl.t = Hashtbl.create 256
+let rec refs = function [] -> [] | "ref" :: k :: r -> k :: refs r | _ :: r -> refs r
+let rec size_named key level =
+  if level <= 0 then 1 else
+  match Hashtbl.find_opt size_memo (key, level) with
+  | Some s -> s
+  | None ->
+    let sum l lev = List.fold_left (fun a k -> sat a (size_named k lev)) 1 l in
+    let s = match Hashtbl.find_opt defs key with
+      | None -> 1
+      | Some (RNewtype toks) -> sum (refs toks) level
+      | Some (RStruct (_, fs)) -> List.fold_left (fun a (_, _, toks) -> sat a (sum (refs toks) (level - 1))) 1 fs
+      | Some (REnum (_, vs)) ->
+          List.fold_left (fun a (_, o) -> sat a (match o with None -> 1 | Some toks -> sum (refs toks) (level - 1))) 1 vs in
+    Hashtbl.replace size_memo (key, level) s; s
+
+let pair_memo : (string * string, int * bool * bool * bool * bool) Hashtbl.t = Hashtbl.create 16
+let pair_hyp o nw =
+  match Hashtbl.find_opt pair_memo (o, nw) with
+  | Some r -> r
+  | None ->
+    let rec pick l = if l <= 1 || sat (size_named o l) (size_named nw l) <= 200_000 then l else pick (l - 1) in
+    let l = pick levels in
+    let t1 = named o l and t2 = named nw l in
+    let r = (l, evolves t1 t2, all_fallback t1, evolves_keeping t1 t2, wf_ty t1 && wf_ty t2) in
+    Hashtbl.replace pair_memo (o, nw) r; r
+
+let pair_checked = ref 0
+let pair_keeping = ref 0
+let pair_label = ref 0
+let pair_trunc = ref 0
+let ends_with s suf =
+  let n = String.length s and m = String.length suf in n >= m && String.sub s (n - m) m = suf
+let pair_check o nw (b : n list) (expect : string) : string =
+  let (l, ev, af, ek, wf) = pair_hyp o nw in
+  let keeps = ends_with expect " KEEPS" in
+  if keeps then incr pair_label;
+  if l < levels then incr pair_trunc;
+  if not ev then "pair-not-evolves"
+  else if not wf then "pair-type-not-wf"
+  else if keeps && not af then "KEEPS-but-not-all_fallback"
+  else if af && not ek then "all_fallback-but-not-evolves_keeping"
+  else
+    let t1 = ty_of_key o and t2 = ty_of_key nw in
+    match de_as_value true b with
+    | Err _ -> "na"
+    | Ok v ->
+      let canonical = serialize E2 v = Ok b || serialize E1 v = Ok b in
+      if not canonical || not (conforms t2 v) then "na"
+      else begin
+        incr pair_checked;
+        let claim = keeps || (ek && l = levels) in
+        if not claim then ""
+        else begin
+          incr pair_keeping;
+          if af && l = levels && expect <> "" && not keeps then "all_fallback-and-conforming-but-not-labelled-KEEPS"
+          else
+          match tde_top t1 b with
+          | Err _ -> "old-rejects"
+          | Ok x1 ->
+            (match tser_top t1 x1 with
+             | Err _ -> "old-reencode-failed"
+             | Ok b1 ->
+               let direct = tde_top t2 b in
+               (match tde_top t2 b1 with
+                | Err _ -> "new-rejects-after-old"
+                | Ok x2 ->
+                  if direct <> Ok x2 then "new-reads-differently-after-old"
+                  else (match tser_top t2 x2 with
+                        | Err _ -> "new-reencode-failed"
+                        | Ok b2 -> if de_as_value true b2 = Ok (norm t2 v) then "" else "back-differs-from-norm")))
+        end
+      end
+
 let spec_out : out_channel option ref = ref None
+let cur_expect = ref ""
 
 let run_line (line : string) : string =
   match String.split_on_char ' ' line with
@@ -200,6 +289,10 @@ let run_line (line : string) : string =
        | SDe e -> "err " ^ err_text e
        | SSer e -> "serr " ^ err_text e)
   | ["pair"; o; nw; h] ->
+      (match !spec_out with
+       | Some oc -> let r = pair_check o nw (bytes_of_hex h) !cur_expect in
+                    if r <> "" && r <> "na" then (output_string oc (r ^ " " ^ line ^ "\n"))
+       | None -> ());
       (match step o (bytes_of_hex h) with
        | SDe e -> "err " ^ err_text e
        | SSer e -> "serr " ^ err_text e
@@ -215,14 +308,18 @@ let () =
   (if Array.length Sys.argv > 4 then spec_out := Some (open_out Sys.argv.(4)));
   let ic = open_in Sys.argv.(1) in
   let oc = open_out Sys.argv.(2) in
+  (* the harness' expectations (KEEPS labels), line by line next to the cases, when present *)
+  let ec = try Some (open_in (Filename.concat (Filename.dirname Sys.argv.(1)) "expect.txt")) with Sys_error _ -> None in
   (try
     while true do
       let line = input_line ic in
+      cur_expect := (match ec with Some c -> (try input_line c with End_of_file -> "") | None -> "");
       let out = try run_line line with Failure m -> "!DRIVER " ^ m | Stack_overflow -> "!DRIVER stack" in
       output_string oc out; output_char oc '\n'
     done
   with End_of_file -> ());
   (match !spec_out with
-   | Some sc -> output_string sc (Printf.sprintf "checked %d na %d\n" !spec_checked !spec_na); close_out sc
+   | Some sc -> output_string sc (Printf.sprintf "checked %d na %d pairs %d keeping %d keeps_label %d truncated %d\n"
+                                    !spec_checked !spec_na !pair_checked !pair_keeping !pair_label !pair_trunc); close_out sc
    | None -> ());
   close_in ic; close_out oc
